@@ -239,9 +239,10 @@ def sparse_repeat(sparse, *repeat_sizes):
     for i, repeat_size in enumerate(repeat_sizes):
         if repeat_size > 1:
             new_indices = sparse._indices().repeat(1, repeat_size)
+            # the k-th copy is shifted by k * (size of the repeated dimension)
             adding_factor = torch.arange(0, repeat_size, dtype=new_indices.dtype, device=new_indices.device).unsqueeze_(
                 1
-            )
+            ) * sparse.size(i)
             new_indices[i].view(repeat_size, -1).add_(adding_factor)
             sparse = torch.sparse_coo_tensor(
                 new_indices,
